@@ -249,7 +249,7 @@ def parse_module(text):
         i += 1
     return m
 
-RETATTR = r'(?:(?:dso_local|internal|linkonce_odr|hidden|fastcc|noundef|nonnull|noalias|signext|zeroext|local_unnamed_addr|dereferenceable\(\d+\)|align \d+) )*'
+RETATTR = r'(?:(?:dso_local|internal|linkonce_odr|weak_odr|private|hidden|fastcc|noundef|nonnull|noalias|signext|zeroext|local_unnamed_addr|unnamed_addr|dereferenceable(?:_or_null)?\(\d+\)|align \d+) )*'
 def parse_function(hdr, body, m):
     mm = re.match(r'define ' + RETATTR, hdr); j = mm.end()
     rt, j = parse_type(hdr, j, m); j = skipws(hdr, j)
@@ -266,6 +266,7 @@ def parse_function(hdr, body, m):
         t, q = parse_type(a, 0, m); q = skip_attrs(a, q); pn = a[q:].strip()
         params.append((t, 'r_' + re.sub(r'\W', '_', pn[1:])))
     fn = Fn(name, rt, params, m, varargs)
+    fn.static = bool(re.match(r'define (?:dso_local )?(internal|linkonce_odr|weak_odr|private)\b', hdr))
     for t, n in params: fn.vt[n] = t
     # join continuation lines (invoke / switch / landingpad)
     joined = []
@@ -340,12 +341,12 @@ def emit_function(fn, out):
                 phis_for.setdefault(bn, []).append((r, t, inc))
     for bn, ins in fn.blocks:
         code.append('%s: ;' % lbl(fn, bn))
-        if ins and re.match(r'%\S+ = landingpad', ins[0]):
-            code.append('  __CPROVER_assume(0); /* landing pad: C callees do not throw */'); continue
+        # landing pads are only entered through `invoke @__cxa_throw` of the same function (callees
+        # are C functions / noexcept and never unwind: their invoke gets the normal edge only)
         for s in ins:
             code.append('  ' + emit_ins(fn, bn, s, edge, nva, decl))
     ps = ', '.join('%s %s' % (ctype(t, m), n) for t, n in fn.params) + (', ...' if fn.varargs else '')
-    out.append('%s %s(%s) {' % (ctype(fn.ret, m), cname(fn.name, m), ps or 'void'))
+    out.append('%s%s %s(%s) {' % ('static ' if getattr(fn, 'static', False) else '', ctype(fn.ret, m), cname(fn.name, m), ps or 'void'))
     out.extend(decl); out.extend(code); out.append('}\n')
 
 def callee_and_args(fn, x):
@@ -453,7 +454,11 @@ def emit_ins(fn, bn, s, edge, nva, decl):
         t, j = parse_type(rest, 0, m); v, j = parse_value(rest, j, t, fn); return 'return %s;' % v
     if op == 'unreachable': return '__CPROVER_assume(0);'
     if op == 'resume': return '__CPROVER_assume(0);'
-    if op in ('landingpad', 'extractvalue'): return '%s = 0;' % r
+    if op == 'landingpad': return '%s = 0;' % r
+    if op == 'extractvalue':
+        idx = rest.rsplit(',', 1)[1].strip()
+        # {i8* exception object, i32 selector}: the only catchable type is std::exception (selector 1)
+        return ('%s = (char*)verif_exn;' % r) if idx == '0' else ('%s = (char*)1;' % r)
     if op in ('call', 'invoke', 'tail', 'musttail', 'notail'):
         x = s
         x = re.sub(r'^(tail |musttail |notail )?(call|invoke) ', '', x)
@@ -464,7 +469,7 @@ def emit_ins(fn, bn, s, edge, nva, decl):
         if op == 'invoke':
             mm = re.search(r'to label %([\w.\-$]+) unwind label %([\w.\-$]+)', tail)
             after = ' ' + edge(bn, mm.group(1))
-            if nm == '__cxa_throw': return edge(bn, mm.group(2))
+            if nm == '__cxa_throw': return 'verif_exn = (char*)(%s); ' % args[0][1] + edge(bn, mm.group(2))
         if nm.startswith('llvm.lifetime') or nm.startswith('llvm.experimental.noalias') or nm.startswith('llvm.dbg'): return ';' + after
         if nm.startswith('llvm.memcpy') or nm.startswith('llvm.memmove'): return 'memmove(%s, %s, %s);' % (args[0][1], args[1][1], args[2][1]) + after
         if nm.startswith('llvm.memset'): return 'memset(%s, %s, %s);' % (args[0][1], args[1][1], args[2][1]) + after
@@ -498,7 +503,7 @@ def emit_ins(fn, bn, s, edge, nva, decl):
 used_externs = {}
 
 def emit_module(m, want=None):
-    out = ['#include <stdint.h>', '#include <stddef.h>', '#include <stdarg.h>', '#include <string.h>', '']
+    out = ['#include <stdint.h>', '#include <stddef.h>', '#include <stdarg.h>', '#include <string.h>', 'static char* verif_exn; /* exception in flight */', '']
     gl = []
     for n, (t, init) in m.globals.items():
         if t == 'extern': gl.append('extern char %s[];' % cname(n, m)); continue
@@ -506,7 +511,8 @@ def emit_module(m, want=None):
         if init.startswith('c"'):
             raw = init[2:init.rindex('"')]; bs = []; k = 0
             while k < len(raw):
-                if raw[k] == '\\': bs.append(int(raw[k+1:k+3], 16)); k += 3
+                if raw[k] == '\\' and raw[k+1] == '\\': bs.append(92); k += 2
+                elif raw[k] == '\\': bs.append(int(raw[k+1:k+3], 16)); k += 3
                 else: bs.append(ord(raw[k])); k += 1
             gl.append('static char %s[%d] = {%s};' % (mangle(n), len(bs), ','.join(map(str, bs))))
         elif rt.k == 'array' and resolve(rt.e, m).k == 'int':
@@ -518,9 +524,12 @@ def emit_module(m, want=None):
     for f in fns: emit_function(f, body)
     protos = []
     for n, f in m.funcs.items():
-        if want is not None and n not in want: continue
         ps = ', '.join(ctype(t, m) for t, _ in f.params) + (', ...' if f.varargs else '')
-        protos.append('%s %s(%s);' % (ctype(f.ret, m), cname(n, m), ps or 'void'))
+        if want is not None and n not in want:
+            # defined in the module but not translated: provided by the harness (model), external linkage
+            protos.append('%s %s(%s);' % (ctype(f.ret, m), cname(n, m), ps or 'void'))
+            continue
+        protos.append('%s%s %s(%s);' % ('static ' if getattr(f, 'static', False) else '', ctype(f.ret, m), cname(n, m), ps or 'void'))
     for n, (rt, ats, fty) in used_externs.items():
         if n in m.funcs and (want is None or n in want): continue
         if n in ('vsnprintf',): protos.append('int vsnprintf(char*, size_t, const char*, va_list);'); continue
